@@ -105,7 +105,7 @@ class C10(Prop):
                     # the reference single run is synchronous; an async item that fails may additionally hold the outputs of the
                     # failing node's step-siblings that completed (C02: every partial value of the sync runner is returned by the async one)
                     continue
-                if (r["status"], r["values"], r["error"]) != (s["status"], s["values"], s["error"]):
+                if impl.differ([r["status"], r["values"], r["error"]], [s["status"], s["values"], s["error"]]):
                     return f"item {i}: map returned {r['status']}/{r['values']}/{r['error']}, a single run on that combination gives {s['status']}/{s['values']}/{s['error']}"
             return None
         # mapping node: every output is a list with one entry per combination
